@@ -165,6 +165,8 @@ BAD_DEFAULTS = [({"type": "boolean"}, 1), ({"type": "integer"}, "x"), ({"type": 
 BAD_DEFAULTS += [({"type": "integer", "minimum": 0, "maximum": 100}, 200), ({"type": "integer", "minimum": 10}, 5), ({"type": "integer", "maximum": -1}, 0),
                  ({"type": "integer", "exclusiveMinimum": 0}, 0), ({"type": "integer", "format": "uint32", "minimum": 1, "maximum": 10}, 11),
                  ({"type": "integer", "format": "int64", "minimum": -5, "maximum": 5}, -6)]
+# fixed-length arrays of every size class (std / serde implement their traits for arrays up to 32 items): the wrong number of items
+BAD_DEFAULTS += [({"type": "array", "items": {"type": "integer"}, "minItems": n_, "maxItems": n_}, [0] * (n_ + d_)) for n_ in (3, 12, 32, 33, 40) for d_ in (-1, 1)]
 BAD_DEFAULTS += [(dict(s_, type=[s_["type"], "null"]), dv_) for s_, dv_ in list(BAD_DEFAULTS)
                  if isinstance(s_.get("type"), str) and s_["type"] != "null" and dv_ is not None]
 BAD_DEFS = {k: GRID_DEFS[k] for k in ("St", "E", "N3", "Pat", "U8", "Nz", "Deny", "Ext", "Int", "Adj", "Unt")}
